@@ -110,18 +110,19 @@ def sc_one_user(hasprimary=True, backend="thread", waitall_first=True):
 
 
 def sc_two_spawners(hasprimary=True, backend="thread"):
-    """two user threads spawn one task each at the same time (racing for the primary thread's one-slot mailbox), then the pool is terminated"""
+    """two user threads spawn one task each at the same time (racing for the primary thread's one-slot mailbox); the second one then
+    terminates the pool once both tasks are accepted"""
     tasks = {"TASK0": "return", "TASK1": "return"}
     sc = e2.PoolScenario(f"two_spawners[primary={hasprimary},{backend}]", hasprimary, backend, tasks, nreplies=2, nworkers=2)
+    sc.add("spawn_TASK0", SPAWN.format(task="TASK0"), {"pool": sc.pool})
+    sc.add("spawn_TASK1", "def p(pool):\n    r = pool.spawn(TASK1)\n    G.acc_TASK1 = 1\n    await_(G.acc_TASK0 == 1)\n"
+                          "    y = pool.terminate(None)\n    if G.fin_TASK0 == 0:\n        G.bad_waitall = 1\n    if G.fin_TASK1 == 0:\n        G.bad_waitall = 1\n    G.term = 1\n", {"pool": sc.pool})
     for t in tasks:
-        sc.add(f"spawn_{t}", SPAWN.format(task=t), {"pool": sc.pool})
         sc.bad += [("ran_twice", t), ("lost", f"acc_{t}", t), ("uncaught", f"spawn_{t}", []), ("blocked", f"spawn_{t}")]
         sc.observed += [f"acc_{t}", f"ran_{t}", f"fin_{t}"]
-    sc.add("closer", "def p(pool):\n    await_(G.acc_TASK0 == 1)\n    await_(G.acc_TASK1 == 1)\n"
-                     "    y = pool.terminate(None)\n    if G.fin_TASK0 == 0:\n        G.bad_waitall = 1\n    if G.fin_TASK1 == 0:\n        G.bad_waitall = 1\n    G.term = 1\n", {"pool": sc.pool})
-    sc.bad += [("blocked", "closer"), ("uncaught", "closer", []), ("flag", "bad_waitall")]
+    sc.bad += [("flag", "bad_waitall")]
     sc.good_flags += ["term"]
-    sc.observed += ["wa_ret", "term", "bad_waitall"]
+    sc.observed += ["term", "bad_waitall"]
     if hasprimary:
         sc.bad += [("blocked", "primary"), ("uncaught", "primary", [])]
         sc.good_flags += ["prim_exit"]
@@ -147,6 +148,14 @@ def specs(tier: str):
     add("sc_results", 0, kinds=("value",), hasprimary=True, backend="thread", waiter=False)
     add("sc_results", 0, kinds=("raise",), hasprimary=True, backend="main_thread_only", waiter=False)
     add("sc_one_user", 0, hasprimary=True, backend="thread", waitall_first=True)
+    if not thorough:
+        # the larger two-task scenarios: in the quick tier as bug hunting (violation query only, no unwinding assertion)
+        add("sc_one_user", 0, hasprimary=True, backend="thread", waitall_first=False)
+        add("sc_two_spawners", 0, hasprimary=True, backend="thread")
+        for sp in out[-2:]:
+            sp["hunt"] = True
+            sp["timeout"] = 900
+        out[-1]["hunt_depth"] = 32     # (deeper does not finish in the quick budget on the unchanged tree; lost-task / deadlock schedules are short)
     if thorough:
         add("sc_one_user", 0, hasprimary=True, backend="thread", waitall_first=False)
         add("sc_one_user", 0, hasprimary=False, backend="thread", waitall_first=True)
@@ -181,7 +190,7 @@ def run(tier: str) -> Outcome:
             "a finite timeout fires only in states where no thread can take a non-timeout step",
             "tracing calls are no-ops",
         ],
-        bounds=("scenarios: spawn racing trigger_shutdown+waitall(None) with 1 task (thorough 2), one user thread doing spawn, spawn, waitall, terminate (thorough: also terminate directly, without primary, main_thread_only; two concurrent spawner threads + terminate), spawn after shutdown, Reply.get of a returning / "
+        bounds=("scenarios: spawn racing trigger_shutdown+waitall(None) with 1 task (thorough 2), one user thread doing spawn, spawn, waitall, terminate (thorough: also terminate directly, without primary, main_thread_only; two concurrent spawner threads + terminate; quick: those two as bug hunting at the probed depth without unwinding assertion), spawn after shutdown, Reply.get of a returning / "
                 "raising / blocked-then-released task (get with timeout first) with a concurrent waitall caller, with primary thread + terminate (thorough: two tasks); pools with and without integrated primary "
                 "thread, backends thread and main_thread_only (spawner gated as in the statement); unbounded preemptions; depth K per scenario with a "
                 "passing unwinding assertion (no thread can move at depth K)"),
